@@ -94,7 +94,9 @@ CtlClause(m, ev) ==
 
 ClosedClause(m, ev) ==
   IF m.cin[ev.by] # <<>> THEN
-       (IF Head(m.cin[ev.by])[1] # ev.code THEN <<"C28.close_code_misrecorded">>
+       (IF Head(m.cin[ev.by])[1] # ev.code
+        THEN <<"C28.close_code_misrecorded",
+               IF ev.by \in m.zc THEN "ctl_between_compressed_fragments" ELSE "other">>
         ELSE IF Head(m.cin[ev.by])[2] # ev.reason THEN <<"C28.close_reason_misrecorded">>
         \* everything this peer sent before its close frame was processed before it
         ELSE IF m.sent[ev.by] # <<>> THEN <<"C28.message_not_recorded">>
